@@ -2282,7 +2282,7 @@ int cms_deenvelop(const uint8_t *cms, size_t cmslen,
 		error_print();
 		return -1;
 	}
-	if (memcmp(&public_key, rcpt_key, sizeof(SM2_POINT)) != 0) {
+	if (sm2_public_key_equ(&public_key, rcpt_key) != 1) {
 		error_print();
 		return -1;
 	}
@@ -2387,7 +2387,7 @@ int cms_deenvelop_and_verify(const uint8_t *cms, size_t cmslen,
 		error_print();
 		return -1;
 	}
-	if (memcmp(&public_key, rcpt_key, sizeof(SM2_POINT)) != 0) {
+	if (sm2_public_key_equ(&public_key, rcpt_key) != 1) {
 		error_print();
 		return -1;
 	}
